@@ -1433,7 +1433,11 @@ impl ArrayData {
         // space in the child. As such we permit nulls in the children in the corresponding
         // positions for such types
         match &self.data_type {
-            DataType::List(f) | DataType::LargeList(f) | DataType::Map(f, _) => {
+            DataType::List(f)
+            | DataType::LargeList(f)
+            | DataType::ListView(f)
+            | DataType::LargeListView(f)
+            | DataType::Map(f, _) => {
                 if !f.is_nullable() {
                     self.validate_non_nullable(None, &self.child_data[0])?
                 }
